@@ -431,11 +431,12 @@ def _batch(ctx, consume, quick, results, st, xsample_c, xsample_o):
     st["tables_table_struct_ok"] += sum(1 for o in houts[0::2] if o == 1)
     st["tables_table_progress_ok"] += sum(1 for o in houts[1::2] if o == 1)
     st["model_crash_results"] += sum(1 for mo in outs if mo[0] == 3)
-    # the tokenisation theorem (C01_glr_model_valid_full): its boolean conditions are evaluated
-    # on every case (command 212); where they hold and the model returns a forest, the verified
-    # validator forest_ok must accept that forest (an instance of the theorem, re-checked)
-    if consume:
-        tcases = [(212, [mc[1][0], mc[1][1]]) for mc in mcases]
+    # the tokenisation theorems (C01_glr_model_valid_full / C17_glr_model_prefix_valid): their
+    # boolean conditions are evaluated on every case (command 212 with consume_input on, 213 with
+    # it off); where they hold and the model returns a forest, the verified validator forest_ok
+    # must accept that forest (an instance of the theorem, re-checked)
+    if True:
+        tcases = [(212 if consume else 213, [mc[1][0], mc[1][1]]) for mc in mcases]
         touts = common.model_run(tcases)
         st["tok_theorem_applicable"] += sum(1 for o in touts if o == 1)
         vcases, vmeta = [], []
@@ -445,13 +446,14 @@ def _batch(ctx, consume, quick, results, st, xsample_c, xsample_o):
                 tp = topo(mo[1], mo[2])
                 if tp is not None:
                     start = r["grammar"][0][1][0][1]
-                    vcases.append((6, [r["grammar"], tp, c["chars"], c["rx"], r["ws"], start, 0, 1, 0]))
+                    vcases.append((6, [r["grammar"], tp, c["chars"], c["rx"], r["ws"], start, 0,
+                                       1 if consume else 0, 0]))
                     vmeta.append((r, c))
         st["tok_theorem_instances_checked"] += len(vcases)
         for (r, c), vo in zip(vmeta, common.model_run(vcases)):
             if vo != 1:
                 ctx.violation("%s: forest_ok rejects a model forest although the conditions of "
-                              "C01_glr_model_valid_full hold" % KEY,
+                              "the tokenisation theorem hold" % KEY,
                               {"correspondence": KEY, "grammar": r["gtext"], "options": r["opts"],
                                "input": c["input"]}, no_input=True, key=KEY + "-tok")
     # len(forest) and ambiguities of the model's forest through the forest model (C03)
@@ -481,9 +483,8 @@ def run(ctx, consume):
           "grammars": len(jobs), "grammars_not_built": {},
           "solutions_checked": 0, "tables": 0, "tables_table_struct_ok": 0, "tables_table_progress_ok": 0,
           "model_crash_results": 0, "timing_s": {"impl": 0.0, "model": 0.0}}
-    if consume:
-        st["tok_theorem_applicable"] = 0
-        st["tok_theorem_instances_checked"] = 0
+    st["tok_theorem_applicable"] = 0
+    st["tok_theorem_instances_checked"] = 0
     xsample_c, xsample_o = [], []
     B = 90
     with mp.Pool(common.NPROC) as pool:
